@@ -3,6 +3,7 @@ package main
 import (
 	"go/ast"
 	"go/types"
+	"sort"
 	"strings"
 )
 
@@ -20,32 +21,35 @@ func sendsControlPart(p *Prog, idx int) func(fn *Func, cs CallSite) bool {
 
 func init() {
 	register(&Property{ID: "C07", Run: runC07,
-		Explain: "Admission, pairing and existence rules of the mesh, decided for every router state: (R07.1) every own-initiative graft candidate comes from getPeers with a filter that returns true only for non-direct, non-backed-off peers with score >= 0 (opportunistic: > median, after the negative-score prune), the backoff map consulted by a filter is loaded after the last prune of the same iteration, getPeers keeps only connected mesh-capable peers accepted by the filter, and every key inserted into a mesh map is such a candidate; Join's fanout promotion drops members with negative score or backoff; (R07.2) handleGraft inserts only after: topic joined, not direct, not (backoff present and unexpired), score >= 0, not (mesh >= Dhi and not outbound), peerFilter; (R07.3) graftPeer/prunePeer closures pair the mesh write with the tograft/toprune append (and backoff), sendGraftPrune is on every heartbeat path, Join GRAFTs every member of the final mesh map, Leave PRUNEs every former member, and sendGraftPrune builds every PRUNE for a topic taken from the peer's toprune entry and every GRAFT for one from its tograft entry; (R07.4) mesh keys are created only in Join and deleted only in Leave, Join removes the topic's fanout/lastpub, fanout entries are created only by getFanoutPeersForPublishing which is consulted only on a failed mesh lookup; (R07.5) handleGraft admits only connected peers (known finding F8 today), OnClosedOutboundStream removes the peer from every mesh and fanout map; the heartbeat's negative-score loop prunes every negatively scored member; (R07.6) every integer division/modulo of the heartbeat by a parameter is safe for every accepted parameter set (validation rejects a zero divisor on every accepting path, including the bootstrapper early return). NOT decided: the quantitative post-conditions (grown to D, cut back to D keeping Dscore best / Dout outbound) — they depend on sorting run-time scores and random selection.",
+		Explain: "Admission, pairing and existence rules of the mesh, decided for every router state: (R07.1) every own-initiative graft candidate comes from getPeers with a filter that returns true only for non-direct, non-backed-off peers with score >= 0 (opportunistic: > median, after the negative-score prune), the backoff map consulted by a filter is loaded after the last prune of the same iteration, getPeers keeps only connected mesh-capable peers accepted by the filter, and every key inserted into a mesh map is such a candidate; Join's fanout promotion drops members with negative score or backoff; (R07.2) handleGraft inserts only after: topic joined, not direct, not (backoff present and unexpired), score >= 0, not (mesh >= Dhi and not outbound), peerFilter; (R07.3) graftPeer/prunePeer closures pair the mesh write with the tograft/toprune append (and backoff), sendGraftPrune is on every heartbeat path, Join GRAFTs every member of the final mesh map, Leave PRUNEs every former member, and sendGraftPrune builds every PRUNE for a topic taken from the peer's toprune entry and every GRAFT for one from its tograft entry; (R07.4) mesh keys are created only in Join and deleted only in Leave, Join removes the topic's fanout/lastpub, fanout entries are created only by getFanoutPeersForPublishing which is consulted only on a failed mesh lookup; (R07.5) handleGraft admits only connected peers (known finding F8 today), OnClosedOutboundStream removes the peer from every mesh and fanout map; the heartbeat's negative-score loop prunes every negatively scored member; (R07.6) every integer division/modulo of the heartbeat by a parameter is safe for every accepted parameter set (validation rejects a zero divisor on every accepting path, including the bootstrapper early return). (audit round) R07.1: the promotion also drops direct peers; R07.2: the score judged is read after any penalty of the same control message (no stale use reachable from AddPenalty); R07.4: the lastpub stamp is deleted on every path of Join that creates the mesh. NOT decided: the quantitative post-conditions (grown to D, cut back to D keeping Dscore best / Dout outbound) — they depend on sorting run-time scores and random selection.",
 		Assume:  []string{"gs.peers holds exactly the peers with an outbound stream (C13)", "shufflePeers/sort only permute"},
 		Mutants: []Mutant{
 			{Name: "prune-topics-from-graft-list", File: "gossipsub.go", Old: "\t\t\tfor _, topic := range pruning {", New: "\t\t\tfor _, topic := range topics {", Expect: "R07.3"},
 			{Name: "join-filter-no-backoff", File: "gossipsub.go", Old: "\t\t\treturn !direct && !doBackOff && gs.score.Score(p) >= 0\n", New: "\t\t\treturn !direct && (!doBackOff || len(backoff) > 16) && gs.score.Score(p) >= 0\n", Expect: "R07.1"},
 			{Name: "heartbeat-filter-score-gt-neg", File: "gossipsub.go", Old: "\t\t\t\treturn !inMesh && !doBackoff && !direct && score(p) >= 0\n\t\t\t})\n\n\t\t\tfor _, p := range plst {\n\t\t\t\tgraftPeer(p)\n\t\t\t}\n\t\t}\n\n\t\t// do we have too many peers?", New: "\t\t\t\treturn !inMesh && !doBackoff && !direct && score(p) >= gs.publishThreshold\n\t\t\t})\n\n\t\t\tfor _, p := range plst {\n\t\t\t\tgraftPeer(p)\n\t\t\t}\n\t\t}\n\n\t\t// do we have too many peers?", Expect: "R07.1"},
 			{Name: "heartbeat-hoisted-backoff", File: "gossipsub.go", Old: "\t\t// drop all peers with negative score, without PX\n\t\tfor p := range peers {\n\t\t\tif score(p) < 0 {\n\t\t\t\tgs.logger.Debug(\"HEARTBEAT: Prune peer with negative score\", \"peer\", p, \"score\", score(p), \"topic\", topic)\n\t\t\t\tprunePeer(p)\n\t\t\t\tnoPX[p] = true\n\t\t\t}\n\t\t}\n\n\t\t// do we have enough peers?\n\t\tif l := len(peers); l < gs.params.Dlo {\n\t\t\tbackoff := gs.backoff[topic]\n", New: "\t\tbackoff := gs.backoff[topic]\n\t\t// drop all peers with negative score, without PX\n\t\tfor p := range peers {\n\t\t\tif score(p) < 0 {\n\t\t\t\tgs.logger.Debug(\"HEARTBEAT: Prune peer with negative score\", \"peer\", p, \"score\", score(p), \"topic\", topic)\n\t\t\t\tprunePeer(p)\n\t\t\t\tnoPX[p] = true\n\t\t\t}\n\t\t}\n\n\t\t// do we have enough peers?\n\t\tif l := len(peers); l < gs.params.Dlo {\n", Expect: "R07.1"},
-			{Name: "join-promotion-threshold", File: "gossipsub.go", Old: "\t\t\tif gs.score.Score(p) < 0 || doBackOff {\n\t\t\t\tdelete(gmap, p)", New: "\t\t\tif gs.score.Score(p) < gs.publishThreshold || doBackOff {\n\t\t\t\tdelete(gmap, p)", Expect: "R07.1"},
+			{Name: "join-promotion-threshold", File: "gossipsub.go", Old: "\t\t\tif gs.score.Score(p) < 0 || doBackOff || direct {\n\t\t\t\tdelete(gmap, p)", New: "\t\t\tif gs.score.Score(p) < gs.publishThreshold || doBackOff || direct {\n\t\t\t\tdelete(gmap, p)", Expect: "R07.1"},
 			{Name: "getpeers-no-feature", File: "gossipsub.go", Old: "\t\tif gs.feature(GossipSubFeatureMesh, gs.peers[p]) && filter(p) && gs.p.peerFilter(p, topic) {", New: "\t\tif filter(p) && gs.p.peerFilter(p, topic) {", Expect: "R07.1"},
 			{Name: "graft-direct-admitted", File: "gossipsub.go", Old: "\t\t\t// but don't PX\n\t\t\tdoPX = false\n\t\t\tcontinue\n", New: "\t\t\t// but don't PX\n\t\t\tdoPX = false\n", Expect: "R07.2"},
 			{Name: "graft-backoff-expired-flipped", File: "gossipsub.go", Old: "\t\tif backoff && now.Before(expire) {", New: "\t\tif backoff && now.Before(expire) && score >= 0 {", Expect: "R07.2"},
 			{Name: "graft-dhi-gt", File: "gossipsub.go", Old: "\t\tif len(peers) >= gs.params.Dhi && !gs.outbound[p] {", New: "\t\tif len(peers) > gs.params.Dhi && !gs.outbound[p] {", Expect: "R07.2"},
 			{Name: "prunepeer-no-toprune", File: "gossipsub.go", Old: "\t\t\ttopics := toprune[p]\n\t\t\ttoprune[p] = append(topics, topic)\n", New: "\t\t\tif len(peers) > 0 {\n\t\t\t\ttopics := toprune[p]\n\t\t\t\ttoprune[p] = append(topics, topic)\n\t\t\t}\n", Expect: "R07.3"},
 			{Name: "leave-no-prune-when-px-off", File: "gossipsub.go", Old: "\t\tgs.tracer.Prune(p, topic)\n\t\tgs.sendPrune(p, topic, true)\n", New: "\t\tgs.tracer.Prune(p, topic)\n\t\tif gs.doPX {\n\t\t\tgs.sendPrune(p, topic, true)\n\t\t}\n", Expect: "R07.3"},
-			{Name: "join-keeps-fanout", File: "gossipsub.go", Old: "\t\tgs.mesh[topic] = gmap\n\t\tdelete(gs.fanout, topic)\n\t\tdelete(gs.lastpub, topic)\n", New: "\t\tgs.mesh[topic] = gmap\n\t\tdelete(gs.lastpub, topic)\n", Expect: "R07.4"},
+			{Name: "join-keeps-fanout", File: "gossipsub.go", Old: "\t\tgs.mesh[topic] = gmap\n\t\tdelete(gs.fanout, topic)\n\t} else {\n", New: "\t\tgs.mesh[topic] = gmap\n\t} else {\n", Expect: "R07.4"},
+			{Name: "join-keeps-lastpub", File: "gossipsub.go", Old: "\t// the publish stamp is kept even when no fanout peers were found\n\tdelete(gs.lastpub, topic)\n", New: "\t// the publish stamp is kept even when no fanout peers were found\n\tif len(gmap) > 0 {\n\t\tdelete(gs.lastpub, topic)\n\t}\n", Expect: "R07.4"},
+			{Name: "join-promotes-direct", File: "gossipsub.go", Old: "\t\t\tif gs.score.Score(p) < 0 || doBackOff || direct {\n\t\t\t\tdelete(gmap, p)", New: "\t\t\tif gs.score.Score(p) < 0 || doBackOff {\n\t\t\t\t_ = direct\n\t\t\t\tdelete(gmap, p)", Expect: "R07.1"},
+			{Name: "graft-stale-score", File: "gossipsub.go", Old: "\t\t\t// the penalty has lowered the score; the remaining GRAFTs are judged with the new one\n\t\t\tscore = gs.score.Score(p)\n", New: "", Expect: "R07.2"},
 			{Name: "closed-stream-keeps-fanout", File: "gossipsub.go", Old: "\tfor _, peers := range gs.fanout {\n\t\tdelete(peers, p)\n\t}\n\tdelete(gs.gossip, p)", New: "\tdelete(gs.gossip, p)", Expect: "R07.5"},
 			{Name: "validate-allows-zero-ticks", File: "gossipsub.go", Old: "\tif params.OpportunisticGraftTicks == 0 || params.DirectConnectTicks == 0 {", New: "\tif params.DirectConnectTicks == 0 {", Expect: "R07.6"},
 			{Name: "negative-loop-break", File: "gossipsub.go", Old: "\t\t\t\tprunePeer(p)\n\t\t\t\tnoPX[p] = true\n", New: "\t\t\t\tprunePeer(p)\n\t\t\t\tnoPX[p] = true\n\t\t\t\tif len(peers) <= gs.params.Dlo {\n\t\t\t\t\tbreak\n\t\t\t\t}\n", Expect: "G10"},
 		}})
 	register(&Property{ID: "C08", Run: runC08,
-		Explain: "Prune backoff, decided for every history: (R08.1) every place that puts a ControlGraft into an outgoing RPC is enumerated; fresh GRAFTs take candidates from the backoff-filtered getPeers calls (C07 R07.1, shared) or from the fanout members that survive Join's backoff deletion; retried GRAFTs (piggybackControl, flush) are re-sent only on the edge 'peer still in the topic mesh'; (R08.2) inner backoff maps are written only by doAddBackoff under backoff[p].Before(expire) with expire = time.Now().Add(interval), entries are deleted only by clearBackoff under expire.Add(slack).Before(now) with a non-negative constant slack; (R08.3) backoff is recorded wherever C08 says (handlePrune: the peer's value when > 0 else the default; Leave: unsubscribe backoff for every member; prunePeer; the three refusing arms of handleGraft) and the backed-off GRAFT arm penalises once, and once more under now.Before(floodCutoff); (R08.4) makePrune states the backoff for every peer with the PX feature, choosing UnsubscribeBackoff/PruneBackoff by the same flag as addBackoff. NOT decided: deadline arithmetic against (virtual) time.",
+		Explain: "Prune backoff, decided for every history: (R08.1) every place that puts a ControlGraft into an outgoing RPC is enumerated; fresh GRAFTs take candidates from the backoff-filtered getPeers calls (C07 R07.1, shared) or from the fanout members that survive Join's backoff deletion; retried GRAFTs (piggybackControl, flush) are re-sent only on the edge 'peer still in the topic mesh'; (R08.2) inner backoff maps are written only by doAddBackoff under backoff[p].Before(expire) with expire = time.Now().Add(interval), entries are deleted only by clearBackoff under expire.Add(slack).Before(now) with a non-negative constant slack; (R08.3) backoff is recorded wherever C08 says (handlePrune: the peer's value when > 0 else the default; Leave: unsubscribe backoff for every member; prunePeer; the three refusing arms of handleGraft) and the backed-off GRAFT arm penalises once, and once more under now.Before(floodCutoff); (R08.4) makePrune states the backoff for every peer with the PX feature, choosing UnsubscribeBackoff/PruneBackoff by the same flag as addBackoff. (audit round) R08.3 is anchored at the joined-topic edge (backoff owed whether or not the sender was a member); (R08.5) the duration subtracted from the expiry to recover the prune time equals every duration handed to doAddBackoff (known finding F38). NOT decided: deadline arithmetic against (virtual) time.",
 		Assume:  []string{"time.Now is monotone enough for Before/Add comparisons", "SendControl is an application escape hatch (named exemption)"},
 		Mutants: []Mutant{
 			{Name: "flush-resends-raw-control", File: "gossipsub.go", Old: "\t\tout := &RPC{}\n\t\tgs.piggybackControl(p, out, ctl)\n\t\tif out.Control == nil {\n\t\t\tcontinue\n\t\t}\n\t\tgs.sendRPC(p, out, false)", New: "\t\tout := rpcWithControl(nil, nil, nil, ctl.Graft, ctl.Prune, nil)\n\t\tgs.sendRPC(p, out, false)", Expect: "R08.1"},
 			{Name: "piggyback-graft-unfiltered", File: "gossipsub.go", Old: "\t\t_, ok = peers[p]\n\t\tif ok {\n\t\t\ttograft = append(tograft, graft)\n\t\t}", New: "\t\t_, ok = peers[p]\n\t\tif ok || len(peers) < gs.params.Dlo {\n\t\t\ttograft = append(tograft, graft)\n\t\t}", Expect: "R08.1"},
-			{Name: "join-promotion-keeps-backoff", File: "gossipsub.go", Old: "\t\t\tif gs.score.Score(p) < 0 || doBackOff {\n\t\t\t\tdelete(gmap, p)", New: "\t\t\tif gs.score.Score(p) < 0 {\n\t\t\t\t_ = doBackOff\n\t\t\t\tdelete(gmap, p)", Expect: "R07.1"},
+			{Name: "join-promotion-keeps-backoff", File: "gossipsub.go", Old: "\t\t\tif gs.score.Score(p) < 0 || doBackOff || direct {\n\t\t\t\tdelete(gmap, p)", New: "\t\t\tif gs.score.Score(p) < 0 || direct {\n\t\t\t\t_ = doBackOff\n\t\t\t\tdelete(gmap, p)", Expect: "R07.1"},
 			{Name: "clearbackoff-slack-wrong-side", File: "gossipsub.go", Old: "\t\t\tif expire.Add(2 * GossipSubHeartbeatInterval).Before(now) {", New: "\t\t\tif expire.Before(now.Add(2 * GossipSubHeartbeatInterval)) {", Expect: "R08.2"},
 			{Name: "handlegraft-direct-backoff-store", File: "gossipsub.go", Old: "\t\t\t// refresh the backoff\n\t\t\tgs.addBackoff(p, topic, false)", New: "\t\t\t// refresh the backoff\n\t\t\tgs.backoff[topic][p] = now.Add(gs.params.PruneBackoff)", Expect: "R08.2"},
 			{Name: "doaddbackoff-shortens", File: "gossipsub.go", Old: "\tif backoff[p].Before(expire) {\n\t\tbackoff[p] = expire\n\t}", New: "\tif backoff[p].Before(expire) || interval < time.Minute {\n\t\tbackoff[p] = expire\n\t}", Expect: "R08.2"},
@@ -287,7 +291,7 @@ func firstNodeOrStmt(b *cfgBlock) ast.Node {
 }
 
 // checkJoinPromotion: fanout members promoted to the mesh by Join.
-func checkJoinPromotion(c *RuleCtx, rule string, needScore, needBackoff bool) {
+func checkJoinPromotion(c *RuleCtx, rule string, needScore, needBackoff, needDirect bool) {
 	p := c.P
 	f := c.MustFn(rule, "(*GossipSubRouter).Join")
 	if f == nil {
@@ -354,13 +358,16 @@ func checkJoinPromotion(c *RuleCtx, rule string, needScore, needBackoff bool) {
 	if needBackoff {
 		check(bo, "under backoff")
 	}
+	if needDirect {
+		check(lookupIn("p in gs.direct", isDirectMap), "a direct peer")
+	}
 }
 
 func runC07(c *RuleCtx) {
 	p := c.P
 	// R07.1
 	checkGraftFilters(c, "R07.1", false)
-	checkJoinPromotion(c, "R07.1", true, true)
+	checkJoinPromotion(c, "R07.1", true, true, true)
 	if f := c.MustFn("R07.1", fnGetPeers); f != nil {
 		n := 0
 		for _, ap := range p.localAppends(f) {
@@ -392,6 +399,7 @@ func runC07(c *RuleCtx) {
 	// insert-site provenance
 	checkMeshInsertProvenance(c)
 	// R07.2 handleGraft admission
+	checkScoreFreshness(c, "R07.2", fnHandleGraft)
 	if f := c.MustFn("R07.2", fnHandleGraft); f != nil {
 		g := p.Graph(f)
 		sc := isScoreOf(p, f)
@@ -627,18 +635,70 @@ func runC07(c *RuleCtx) {
 			if len(edges) == 0 {
 				c.Bad("R07.4", f.Name, "fanout lookup", f.Decl, "Join does not look the topic up in gs.fanout")
 			}
-			for _, e := range edges {
-				for _, fld := range []string{"fanout", "lastpub"} {
-					ok, _ := g.MustPass(EdgeTarget(e), PassOpts{}, func(n ast.Node) bool {
-						for _, d := range p.mapDeletes(f) {
-							if contains(n, d.Call) && p.R(f).Val(d.Map).IsField(gsField(fld)) {
-								return true
-							}
+			deletes := func(fld string) func(ast.Node) bool {
+				return func(n ast.Node) bool {
+					for _, d := range p.mapDeletes(f) {
+						if contains(n, d.Call) && p.R(f).Val(d.Map).IsField(gsField(fld)) {
+							return true
 						}
-						return false
-					})
-					c.Check(ok, "R07.4", f.Name, "Join removes the topic's "+fld+" entry", condNodeOf(e), "always on the fanout-present edge", "after Join the topic can have both a mesh and a "+fld+" entry")
+					}
+					return false
 				}
+			}
+			for _, e := range edges {
+				ok, _ := g.MustPass(EdgeTarget(e), PassOpts{}, deletes("fanout"))
+				c.Check(ok, "R07.4", f.Name, "Join removes the topic's fanout entry", condNodeOf(e), "always on the fanout-present edge", "after Join the topic can have both a mesh and a fanout entry")
+			}
+			// the publish stamp: it is written on every fanout publish, whether or not fanout peers were found,
+			// so it can exist without a fanout entry. Either every stamp write is tied to a fanout entry (then
+			// the fanout-present edge suffices), or every path of Join that creates the mesh removes it.
+			stampTied := true
+			nStamp := 0
+			for _, s := range p.StoresTo(gsField("lastpub")) {
+				if s.Kind != "elem-assign" {
+					continue
+				}
+				nStamp++
+				hasFanS := lookupIn("topic in gs.fanout", isFieldOf(gsField("fanout")))
+				okL, _ := p.DomAny(s.Fn, s.Node, AtomWant{hasFanS, true})
+				sg := p.Graph(s.Fn)
+				pt, located := sg.Locate(s.Node)
+				okS := located && sg.DominatedByNode(pt, func(n ast.Node) bool {
+					for _, s2 := range p.StoresTo2(s.Fn, gsField("fanout")) {
+						if s2.Kind == "elem-assign" && contains(n, s2.Node) {
+							return true
+						}
+					}
+					return false
+				})
+				if !okL && !okS {
+					stampTied = false
+				}
+			}
+			if nStamp == 0 {
+				c.Undecided("R07.4", f.Name, "lastpub writes", f.Decl, "no write of gs.lastpub found (anchor drift)")
+			}
+			for i, s := range p.StoresTo2(f, gsField("mesh")) {
+				if s.Kind != "elem-assign" {
+					continue
+				}
+				pt, _ := g.Locate(s.Node)
+				okAfter, _ := g.MustPass(pt, PassOpts{}, deletes("lastpub"))
+				okBefore := g.DominatedByNode(pt, deletes("lastpub"))
+				okEdge := false
+				if stampTied && len(edges) > 0 {
+					okEdge = true
+					for _, e := range edges {
+						if ok, _ := g.MustPass(EdgeTarget(e), PassOpts{}, deletes("lastpub")); !ok {
+							okEdge = false
+						}
+					}
+				}
+				suffix := ""
+				if i > 0 {
+					suffix = "#" + itoa(i+1)
+				}
+				c.Check(okAfter || okBefore || okEdge, "R07.4", f.Name, "Join removes the topic's lastpub entry"+suffix, s.Node, "on every path that creates the mesh (or wherever a stamp can exist)", "this path of Join creates the mesh without deleting gs.lastpub[topic], which getFanoutPeersForPublishing writes on every fanout publish even when it found no fanout peers: fanout state survives for a joined topic")
 			}
 			// Join returns early iff already joined
 			joined := lookupIn("topic in gs.mesh", isFieldOf(gsField("mesh")))
@@ -822,7 +882,7 @@ func runC08(c *RuleCtx) {
 	p := c.P
 	// R08.1 GRAFT emitters
 	checkGraftFilters(c, "R07.1", true)
-	checkJoinPromotion(c, "R07.1", false, true)
+	checkJoinPromotion(c, "R07.1", false, true, false)
 	{
 		// enumerate functions that construct a ControlGraft or forward Graft lists
 		emit := map[string]bool{}
@@ -838,6 +898,14 @@ func runC08(c *RuleCtx) {
 					}
 				case *ast.SelectorExpr:
 					if s, ok := f.Info().Selections[x]; ok && s.Kind() == types.FieldVal && fieldOwnerName(s) == "pb.ControlMessage.Graft" {
+						// merely measuring the list (`len(ctl.Graft)`) neither builds nor forwards a GRAFT
+						if ce, isCall := p.parents[ast.Node(x)].(*ast.CallExpr); isCall {
+							if id, isId := ce.Fun.(*ast.Ident); isId && id.Name == "len" {
+								if _, isBuiltin := f.Info().Uses[id].(*types.Builtin); isBuiltin {
+									return true
+								}
+							}
+						}
 						emit[f.Root().Name] = true
 					}
 				}
@@ -1033,19 +1101,22 @@ func runC08(c *RuleCtx) {
 		}
 		if del == nil {
 			c.Bad("R08.3", f.Name, "mesh removal", f.Decl, "handlePrune does not remove the peer from the mesh")
-		} else {
-			dp, _ := g.Locate(del.Call)
-			until := p.iterationUntil(f, del.Call)
-			ok, _ := g.MustPass(dp.After(), PassOpts{Until: until}, p.callPred(f, fnDoAddBO, fnAddBackoff))
-			c.Check(ok, "R08.3", f.Name, "PRUNE received => backoff recorded", del.Call, "always", "a received PRUNE can be processed without recording a backoff")
 		}
-		if del != nil {
-			dp, _ := g.Locate(del.Call)
+		// the backoff is owed for every PRUNE of a joined topic, whether or not the sender was (still) a
+		// mesh member: anchored at the edge that establishes "topic joined", not at the mesh removal
+		joinedE := g.AtomEdges(lookupIn("topic in gs.mesh", isFieldOf(gsField("mesh"))), true)
+		if len(joinedE) == 0 {
+			c.Undecided("R08.3", f.Name, "joined-topic test", f.Decl, "handlePrune does not look the topic up in gs.mesh")
+		}
+		for _, je := range joinedE {
+			until := p.iterationUntil(f, condNodeOf(je))
+			ok, _ := g.MustPass(EdgeTarget(je), PassOpts{Until: until}, p.callPred(f, fnDoAddBO, fnAddBackoff))
+			c.Check(ok, "R08.3", f.Name, "PRUNE received => backoff recorded", condNodeOf(je), "always", "a received PRUNE for a joined topic can be processed without recording a backoff")
 			cut := cutSet{}
 			for _, e := range g.AtomEdges(named, false) {
 				cut[e] = true
 			}
-			ok, _ := g.MustPass(dp.After(), PassOpts{Cut: cut, Until: p.iterationUntil(f, del.Call)}, func(n ast.Node) bool {
+			ok, _ = g.MustPass(EdgeTarget(je), PassOpts{Cut: cut, Until: until}, func(n ast.Node) bool {
 				for _, cs := range p.CallsIn(f, n, false) {
 					if cs.Name == fnDoAddBO && p.R(f).Val(cs.Call.Args[2]).Has(func(v *V) bool { return v.IsCall("pb.(*ControlPrune).GetBackoff") }) {
 						return true
@@ -1053,7 +1124,7 @@ func runC08(c *RuleCtx) {
 				}
 				return false
 			})
-			c.Check(ok && len(g.AtomEdges(named, true)) > 0, "R08.3", f.Name, "named backoff obeyed", del.Call, "every path that does not refute `GetBackoff() > 0` records the peer's value", "a PRUNE naming a backoff can be processed without recording that backoff")
+			c.Check(ok && len(g.AtomEdges(named, true)) > 0, "R08.3", f.Name, "named backoff obeyed", condNodeOf(je), "every path that does not refute `GetBackoff() > 0` records the peer's value", "a PRUNE naming a backoff can be processed without recording that backoff")
 		}
 		for _, e := range g.AtomEdges(named, false) {
 			ok, _ := g.MustPass(EdgeTarget(e), PassOpts{Until: p.iterationUntil(f, condNodeOf(e))}, p.callPred(f, fnAddBackoff))
@@ -1251,6 +1322,7 @@ func runC08(c *RuleCtx) {
 		}
 	}
 	c.Min["R07.1"] = 8
+	checkFloodCutoffBase(c)
 	c.Min["R08.1"] = 7
 	c.Min["R08.2"] = 5
 	c.Min["R08.3"] = 12
@@ -1264,4 +1336,58 @@ func compositeOf(e ast.Expr) *ast.CompositeLit {
 	}
 	cl, _ := e.(*ast.CompositeLit)
 	return cl
+}
+
+// R08.5: "doubly when it arrives within the graft-flood threshold" is measured from the moment of the prune, but
+// only the expiry is stored. handleGraft recovers the prune time by subtracting a duration from the expiry; that
+// is the prune time only if every entry was recorded with exactly that duration (writer/reader agreement).
+func checkFloodCutoffBase(c *RuleCtx) {
+	p := c.P
+	f := c.MustFn("R08.5", fnHandleGraft)
+	if f == nil {
+		return
+	}
+	// the reader: expire.Add(GraftFloodThreshold - X)
+	var sub *V
+	var site ast.Node
+	for _, cs := range p.Sites(f, false, "time.Time.Add") {
+		v := p.R(f).Val(cs.Call)
+		if v == nil || len(v.Args) != 2 || v.Args[0].Kind != "lookupval" {
+			continue
+		}
+		d := v.Args[1]
+		if d.Kind == "op" && d.Name == "-" && d.Args[0].IsField("GossipSubParams.GraftFloodThreshold") {
+			sub, site = d.Args[1], cs.Call
+		}
+	}
+	if sub == nil {
+		// the cutoff is not derived from the expiry by subtraction (e.g. the prune time is stored): nothing to agree on
+		c.OK("R08.5", f.Name, "flood cutoff measured from the recorded prune time", f.Decl, "no subtraction from the expiry")
+		return
+	}
+	// the writers: every duration handed to doAddBackoff
+	var other []string
+	n := 0
+	for _, cs := range p.AllSites(fnDoAddBO) {
+		if len(cs.Call.Args) != 3 {
+			continue
+		}
+		for _, ch := range p.R(cs.Fn).Sources(cs.Call.Args[2]) {
+			n++
+			if ch.Leaf == nil || !ch.Leaf.Equal(sub) {
+				desc := "zero value"
+				if ch.Leaf != nil {
+					desc = ch.Leaf.String()
+				}
+				other = append(other, desc+" ("+cs.Fn.Root().Name+")")
+			}
+		}
+	}
+	if n == 0 {
+		c.Undecided("R08.5", f.Name, "backoff writers", site, "no doAddBackoff call found")
+		return
+	}
+	sort.Strings(other)
+	c.Check(len(other) == 0, "R08.5", f.Name, "flood cutoff measured from the recorded prune time", site, "every backoff entry is recorded with the duration that is subtracted", "the flood cutoff is expire + GraftFloodThreshold - "+sub.String()+", which is the prune time plus the threshold only for entries recorded with "+sub.String()+"; entries are also recorded with "+strings.Join(other, ", ")+": after leaving a topic (unsubscribe backoff) or a PRUNE naming its own period, a GRAFT inside the flood threshold is penalised once instead of twice (or twice long after it)")
+	c.Min["R08.5"] = 1
 }
